@@ -11,6 +11,7 @@ use crate::{utils, Metainfo};
 use std::fs;
 use std::fs::File;
 use std::io::{BufReader, BufWriter, Read, Seek, Write};
+use std::path::Component;
 use tokio::sync::mpsc;
 
 pub struct Extractor {
@@ -36,6 +37,16 @@ impl Extractor {
     }
 
     fn extract_files(&self) -> Result<(), Box<dyn std::error::Error>> {
+        // Refuse paths which could lead outside of download directory
+        for (path, _, _) in self.metainfo.file_piece_ranges().iter() {
+            if path
+                .components()
+                .any(|c| !matches!(c, Component::Normal(_) | Component::CurDir))
+            {
+                return Err(format!("Unsafe path: {}", path.display()).into());
+            }
+        }
+
         for (path, start, end) in self.metainfo.file_piece_ranges().iter() {
             // Create directories if needed
             if let Some(parent) = path.parent() {
